@@ -235,6 +235,21 @@ package store
 //@   props C19
 //@   requires database != nil && !held(database.RW) && !rheld(database.RW)
 //@   ensures !held(database.RW) && !rheld(database.RW)
+// The write-ahead queue below the store (FileQueue: its append position Offset is read and bumped by every Put, and it has no
+// lock of its own) is shared by the same threads: it is appended to only with database.RW held.
+//@ func (*BeansDB).Put   trusted
+//@   modifies allbut(ChainDatabase, CBlock, VoteTop, Candidate, []*Candidate, map[common.Hash]*CBlock, types.Block, types.Header)
+//@ func (*ChainDatabase).SetContractCode
+//@   props C19
+//@   opt atomic=database.RW
+//@   requires database != nil && !held(database.RW) && !rheld(database.RW)
+//@   assert @call Put#0: held(database.RW)
+//@   ensures !held(database.RW) && !rheld(database.RW)
+//@ func (*ChainDatabase).setBlock2DB
+//@   props C19
+//@   requires database != nil && held(database.RW)
+//@   assert @call Put#0: held(database.RW)
+//@   ensures held(database.RW)
 // helpers: entered and left with the write lock held
 //@ func (*ChainDatabase).blockCommit
 //@   props C19
